@@ -267,6 +267,8 @@ type c07Entry struct {
 	// entry was then.
 	seen    [2]string
 	seenLoc [2]string
+	// seq numbers the entries of a history in the order they became live.
+	seq int
 }
 
 func (e *c07Entry) String() string {
@@ -933,4 +935,39 @@ func c07RandTerm(rng *rand.Rand, w *c07World, live []*c07Entry) (t c07Term) {
 	}
 
 	return t
+}
+
+// c07Simple builds a minimal query (no answer, no ECS) and its shadow.
+func c07Simple(w *c07World, idx int, host, ip, cid string, blocked bool) (p *AddParams, e *c07Entry) {
+	nip := net.ParseIP(ip)
+	if ip4 := nip.To4(); ip4 != nil {
+		nip = ip4
+	}
+	q := dns.Question{Name: host + ".", Qtype: dns.TypeA, Qclass: dns.ClassINET}
+	e = &c07Entry{
+		Idx: idx, Host: host, QType: "A", QClass: "IN", IP: nip, IPStr: nip.String(), CID: cid,
+		Elapsed: time.Duration(1000 + idx%977), Consistent: true,
+	}
+	if uni, ok := c07ToUnicode(host); ok {
+		e.Uni = uni
+	}
+	p = &AddParams{
+		Question: &dns.Msg{Question: []dns.Question{q}},
+		ClientID: cid,
+		ClientIP: nip,
+		Elapsed:  e.Elapsed,
+	}
+	if cid != "" {
+		p.ClientProto = ClientProtoDoT
+		e.Proto = string(ClientProtoDoT)
+	}
+	if blocked {
+		e.Reason, e.IsFiltered = int(filtering.FilteredBlockList), true
+		e.Rules = []c07Rule{{ID: 7, Text: "||" + host + "^"}}
+		p.Result = &filtering.Result{Reason: filtering.FilteredBlockList, IsFiltered: true,
+			Rules: []*filtering.ResultRule{{FilterListID: 7, Text: "||" + host + "^"}}}
+	}
+	e.Client, _ = w.findClient(c07IDs(cid, e.IPStr))
+
+	return p, e
 }
